@@ -141,8 +141,16 @@ def traced_history(prog, hist, root, bindir):
             pj.make_link(st['n'], st['v'])
             owned.add(st['n'])
         elif a == 'tmp':
-            with open(pj.path(st['n']) + '.redo.tmp', 'w') as f:
-                f.write('stale partial output of an earlier, killed build\n')
+            stale = pj.path(st['n']) + '.redo.tmp'
+            if os.path.isdir(stale) and not os.path.islink(stale):
+                shutil.rmtree(stale)
+            elif os.path.lexists(stale):
+                os.unlink(stale)
+            if st.get('v') == 'l':
+                os.symlink('data-that-was-never-written', pj.path(st['n']) + '.redo.tmp')
+            else:
+                with open(pj.path(st['n']) + '.redo.tmp', 'w') as f:
+                    f.write('stale partial output of an earlier, killed build\n')
         elif a == 'cmd':
             argv = ['redo-ifchange' if st['kind'] == 'ifchange' else 'redo']
             if st['keep'] and st['kind'] == 'redo':
